@@ -29,7 +29,7 @@ var ParamKinds = map[string][]string{
 
 // countTexts: number spellings for count/width/offset positions — integral and
 // non-integral, negative, 2^63-adjacent, written in several ways.
-var countTexts = []string{"0", "1", "2", "3", "4", "5", "7", "10", "-1", "-2", "1.0", "2.0", "1e1", "1e0", "20e-1", "0.0", "-0", "1.5", "0.5", "2.000001", "-0.5", "1e-1", "9223372036854775807", "9223372036854775808", "-9223372036854775808", "1e19", "1e30", "4294967296", "2147483648", "100", "1000", "1E0", "2E+0", "10E-1", "15E-1", "25E-1", "1E1"}
+var countTexts = []string{"0", "1", "2", "3", "4", "5", "7", "10", "-1", "-2", "1.0", "2.0", "1e1", "1e0", "20e-1", "0.0", "-0", "1.5", "0.5", "2.000001", "-0.5", "1e-1", "9223372036854775807", "9223372036854775808", "-9223372036854775808", "1e19", "1e30", "4294967296", "2147483648", "100", "1000", "1000001", "1048577", "65537", "1E0", "2E+0", "10E-1", "15E-1", "25E-1", "1E1"}
 
 func numStrs() []string {
 	return []string{"1", "1.0", "-2.5", "1e3", "0", "-0", "1E2", "1e+2", "0.1", " 1", "1 ", "+1", "01", ".5", "1.", "1e", "abc", "", "null", "true", "NaN", "Infinity", "-Infinity", "inf", "0x10", "1_000", "١", "1e400", "12345678901234567890123456789012345678901234567890", "--1", "1..2", "nan"}
